@@ -800,10 +800,19 @@ pub fn ladder(rng: &mut Rng, cx: Cx) -> Frag {
     // signature-free arm: and_v(v:h1, and_v(v:h2, ... last))
     let sigless = |rng: &mut Rng| -> Frag {
         let h = 1 + rng.below(4);
-        let mut f = match rng.below(4) {
+        let mut f = match rng.below(5) {
             0 => Frag::Older(*rng.pick(&[1u32, 2, 144])),
             1 => Frag::After(*rng.pick(&[1u32, 2, 144])),
             2 => Frag::True,
+            3 => {
+                // the same lock twice on the one path (the two have to be merged, not to conflict)
+                let n = *rng.pick(&[1u32, 10, 144]);
+                if rng.coin() {
+                    Frag::AndV(Box::new(Frag::Verify(Box::new(Frag::Older(n)))), Box::new(Frag::Older(n)))
+                } else {
+                    Frag::AndV(Box::new(Frag::Verify(Box::new(Frag::After(n)))), Box::new(Frag::After(n)))
+                }
+            }
             _ => hash(rng, 3),
         };
         for i in 0..h {
